@@ -90,10 +90,14 @@ def fold_pct(node):
     constant.  (A library that builds real postfix nodes normalises to the
     same form.)"""
     x = node[1]
-    if x[0] == 'num':
-        return ('num', x[1] / 100.0)
-    if x[0] == 'neg' and x[1][0] == 'num':
-        return ('neg', ('num', x[1][1] / 100.0))
+    depth, inner = 0, x
+    while inner[0] == 'neg':           # any number of unary minus signs
+        depth, inner = depth + 1, inner[1]
+    if inner[0] == 'num':
+        out = ('num', inner[1] / 100.0)
+        for _ in range(depth):
+            out = ('neg', out)
+        return out
     return ('op', '*', x, ('num', 0.01))
 
 
